@@ -2,6 +2,7 @@ import DymVerif.Driver.Common
 import DymVerif.Driver.Core
 import DymVerif.Model.LC
 import DymVerif.Model.LCTx
+import DymVerif.Model.LCAdmin
 namespace DymVerif.Driver.C09
 open DymVerif DymVerif.LC DymVerif.Driver
 open DymVerif.Driver.Core (kv kvN idx! joinWith b2s)
@@ -165,10 +166,21 @@ def stepTx (d : DState) (rest : List String) : DState × String :=
     let d' := { d with st := s' }
     (d', render d' (resName true r))
 
+/-- `lc_upgrade` / `lc_recover` (`Model/LCAdmin.lean`) -/
+def stepAdmin (d : DState) (o : AOp) : DState × String :=
+  let (s', r) := LC.astep d.st o
+  let d' := { d with st := s' }
+  (d', render d' (resName false r))
+
 def stepAll (d : DState) (f : List String) : DState × String :=
-  match f with
-  | "tx" :: rest => stepTx d rest
-  | _ => step d f
+  let (d', out) := match f with
+    | "tx" :: rest => stepTx d rest
+    | "lc_recover" :: c :: _ => stepAdmin d (.recover (idx! c) (idx! (kv f "sub")))
+    | "lc_upgrade" :: c :: _ =>
+      stepAdmin d (.upgrade (idx! c) ⟨chainOf d (kv f "chain"), kvN f "h", kvN f "ts", kvN f "nv"⟩ (kv f "ibc" = "1"))
+    | _ => step d f
+  -- the side condition of `agreement_inv` (`SafeRun` / `CoveredRun`), evaluated in every state of every trace
+  if LC.coveredB d'.st then (d', out) else (d', "model-invariant-broken: a descriptor of M-LC outside every state info of M-Core | " ++ out)
 
 def drv : Drv := { σ := DState, init := default, step := stepAll }
 
